@@ -9,6 +9,7 @@ import (
 	"encoding/binary"
 	"errors"
 	"fmt"
+	"os"
 	"sort"
 	"strings"
 
@@ -737,6 +738,9 @@ func (w *world) checkCrashImage(cp *crashPoint, mode int, outcome []map[int]bool
 	}
 	w.r.Steps++
 	w.r.Fault("crash." + crashModeName[mode])
+	if os.Getenv("VERIF_DEBUG") != "" {
+		fmt.Printf("DBG point k=%d kind=%s step=%d mode=%s sig=%s files=%s\n", cp.k, cp.kind, cp.step, crashModeName[mode], sig, diskListing(fs))
+	}
 	if _, dup := w.crashSeen[sig]; dup {
 		w.r.Probe("crash_images_identical_skipped")
 		w.crashChecked[mode]++
